@@ -356,7 +356,7 @@ class BacktrackSolver(Solver):
             if solution is None:
                 break
             logger.info(f"Found a local optimum: {solution[variable_idx]}")
-            solution_queue.put((processor_idx, solution, self.statistics))
+            solution_queue.put((processor_idx, solution, self.statistics.copy()))
             reset(
                 self.problem,
                 self.shr_domains_stack,
@@ -375,7 +375,7 @@ class BacktrackSolver(Solver):
             )
             if is_empty(self.shr_domains_stack, self.stacks_top, self.problem.dom_indices_arr, variable_idx):
                 break  # no better value is left in the domain
-        solution_queue.put((processor_idx, None, self.statistics))
+        solution_queue.put((processor_idx, None, self.statistics.copy()))
 
     def solve_and_queue(self, processor_idx: int, solution_queue: Queue) -> None:
         """
@@ -417,7 +417,7 @@ class BacktrackSolver(Solver):
             )
             if solution is None:
                 break
-            solution_queue.put((processor_idx, solution, self.statistics))
+            solution_queue.put((processor_idx, solution, self.statistics.copy()))
             if not backtrack(
                 self.statistics,
                 self.not_entailed_propagators_stack,
@@ -427,7 +427,7 @@ class BacktrackSolver(Solver):
                 self.problem.triggers,
             ):
                 break
-        solution_queue.put((processor_idx, None, self.statistics))
+        solution_queue.put((processor_idx, None, self.statistics.copy()))
 
 
 def reset(
